@@ -113,3 +113,10 @@ if not m:
 else:
     extra_text.append("Definition C16_STATUS_STRICT : bool := %s.  (* http_res_parse_line insists on a 3-digit status code *)"
                       % ("true" if re.search(r"strlen\(codestr\) != 3", m.group(0)) else "false"))
+# ws_read_cb: does the running RECVMAXSZ test also count control frames?
+m = re.search(r"if \(\(!ws->isstream\) && \(ws->recvmax > 0\)([^{]*)\{\s*size_t\s+totlen = frame->len;", _t)
+if not m:
+    missing.append("running recvmax test of ws_read_cb in " + _ws)
+else:
+    extra_text.append("Definition C16_RECVMAX_COUNTS_CONTROL : bool := %s.  (* ws_read_cb: recvmax test not restricted to data frames *)"
+                      % ("false" if re.search(r"0x0?8", m.group(1)) else "true"))
